@@ -363,4 +363,18 @@ def step (s : St) (op : Op) : R :=
   | .yield => (fireDue s, none)
   | .sleep d => (sleepLoop SLEEPFUEL (s.now + d) s, none)
 
+/-- a sleep of the driver during which every wake-up of the loop is `late` ns late (a real loop is never exactly
+on time): not a new primitive but a sequence of `advance` and `yield` operations (`sleepLate_ops`) -/
+def sleepLate : Nat → Int → Int → St → St
+  | 0, _, _, s => s
+  | n + 1, target, late, s =>
+    match s.timer with
+    | some t =>
+      if t ≤ target then
+        let w := (if t > s.now then t else s.now) + late
+        let w := if w > target then target else w
+        sleepLate n target late (step (step s (.advance (w - s.now))).1 .yield).1
+      else (step (step s (.advance (target - s.now))).1 .yield).1
+    | none => (step (step s (.advance (target - s.now))).1 .yield).1
+
 end Ea
